@@ -1,48 +1,63 @@
 import Scalibr.Model.OnceCell
 namespace Scalibr.OnceCell
 
-structure Inv (s : St) : Prop where
+structure Inv (fails : Eco → Bool) (s : St) : Prop where
   built_le : ∀ e, s.built e = if (s.cell e).isSome then 1 else 0
   got_cell : ∀ t e c, s.got t = some (e, c) → s.cell e = some c
   cell_lt : ∀ e c, s.cell e = some c → c < s.next
+  fail_none : ∀ e, fails e = true → s.cell e = none
 
-theorem inv_init : Inv init := by
-  refine ⟨fun _ => rfl, ?_, ?_⟩ <;> intros <;> simp_all [init]
+theorem inv_init (fails : Eco → Bool) : Inv fails init := by
+  refine ⟨fun _ => rfl, ?_, ?_, fun _ _ => rfl⟩ <;> intros <;> simp_all [init]
 
-theorem inv_step (s : St) (t : Nat) (e : Eco) (h : Inv s) : Inv (step s t e) := by
-  obtain ⟨h1, h2, h3⟩ := h
+theorem inv_step (fails : Eco → Bool) (s : St) (t : Nat) (e : Eco) (h : Inv fails s) : Inv fails (step fails s t e) := by
+  obtain ⟨h1, h2, h3, h4⟩ := h
   unfold step
   cases hc : s.cell e with
   | some c =>
-    refine ⟨h1, ?_, h3⟩
+    refine ⟨h1, ?_, h3, h4⟩
     intro t' e' c' hg
     simp only [upd] at hg; split at hg
     · cases hg; exact hc
     · exact h2 t' e' c' hg
   | none =>
-    refine ⟨?_, ?_, ?_⟩
-    · intro e'
-      simp only [upd]; split
-      · rename_i he; subst he; have := h1 e'; simp [hc] at this; simp [this]
-      · exact h1 e'
-    · intro t' e' c' hg
-      simp only [upd] at hg ⊢
-      split at hg
-      · cases hg; simp
-      · have := h2 t' e' c' hg
-        split
-        · rename_i he; subst he; rw [hc] at this; cases this
-        · exact this
-    · intro e' c' hce
-      simp only [upd] at hce; split at hce
-      · cases hce; exact Nat.lt_succ_self _
-      · exact Nat.lt_succ_of_lt (h3 e' c' hce)
+    cases hf : fails e with
+    | true =>
+      simp only [↓reduceIte]
+      refine ⟨h1, ?_, h3, h4⟩
+      intro t' e' c' hg
+      simp only [upd] at hg; split at hg
+      · cases hg
+      · exact h2 t' e' c' hg
+    | false =>
+      simp only [Bool.false_eq_true, ↓reduceIte]
+      refine ⟨?_, ?_, ?_, ?_⟩
+      · intro e'
+        simp only [upd]; split
+        · rename_i he; subst he; have := h1 e'; simp [hc] at this; simp [this]
+        · exact h1 e'
+      · intro t' e' c' hg
+        simp only [upd] at hg ⊢
+        split at hg
+        · cases hg; simp
+        · have := h2 t' e' c' hg
+          split
+          · rename_i he; subst he; rw [hc] at this; cases this
+          · exact this
+      · intro e' c' hce
+        simp only [upd] at hce; split at hce
+        · cases hce; exact Nat.lt_succ_self _
+        · exact Nat.lt_succ_of_lt (h3 e' c' hce)
+      · intro e' hf'
+        simp only [upd]; split
+        · rename_i he; subst he; rw [hf] at hf'; cases hf'
+        · exact h4 e' hf'
 
-theorem inv_run (calls : List (Nat × Eco)) : Inv (run calls) := by
+theorem inv_run (fails : Eco → Bool) (calls : List (Nat × Eco)) : Inv fails (run fails calls) := by
   unfold run
-  suffices ∀ s, Inv s → Inv (calls.foldl (fun s c => step s c.1 c.2) s) from this _ inv_init
+  suffices ∀ s, Inv fails s → Inv fails (calls.foldl (fun s c => step fails s c.1 c.2) s) from this _ (inv_init fails)
   induction calls with
   | nil => intro s h; exact h
-  | cons c cs ih => intro s h; exact ih _ (inv_step s c.1 c.2 h)
+  | cons c cs ih => intro s h; exact ih _ (inv_step fails s c.1 c.2 h)
 
 end Scalibr.OnceCell
